@@ -104,6 +104,17 @@ def _names():
             'local.rank', 'local.popularity']
 
 
+def canon(o):
+    """type-sensitive canonical form of attrs (a list is not a tuple; arrays by dtype and content)"""
+    if isinstance(o, dict):
+        return ('dict', tuple(sorted((str(k), canon(v)) for k, v in o.items())))
+    if isinstance(o, (list, tuple)):
+        return (type(o).__name__, tuple(canon(v) for v in o))
+    if isinstance(o, np.ndarray):
+        return ('ndarray', str(o.dtype), o.shape, tuple(o.ravel().tolist()))
+    return (type(o).__name__, repr(o))
+
+
 class Snap:
     def __init__(self, da_):
         self.dims = tuple(da_.dims); self.name = da_.name
@@ -113,7 +124,7 @@ class Snap:
         self.dtype = arr.dtype; self.shape = arr.shape
         self.bytes = np.ascontiguousarray(arr).tobytes()
         self.coords = {k: (np.array(v.values, copy=True), tuple(v.dims)) for k, v in da_.coords.items()}
-        self.attrs = copy.deepcopy(dict(da_.attrs))
+        self.attrs = copy.deepcopy(dict(da_.attrs)); self.attrs_canon = canon(self.attrs)
         self.chunks = getattr(d, 'chunks', None)
 
     def diff(self, da_, allow_widen=False):
@@ -132,7 +143,7 @@ class Snap:
         if set(da_.coords) != set(self.coords): return 'coordinates changed %s -> %s' % (sorted(self.coords), sorted(da_.coords))
         for k, (v, dm) in self.coords.items():
             if not np.array_equal(np.asarray(da_.coords[k].values), v) or tuple(da_.coords[k].dims) != dm: return 'coordinate %s changed' % k
-        if dict(da_.attrs) != self.attrs: return 'attrs changed %r -> %r' % (self.attrs, dict(da_.attrs))
+        if canon(dict(da_.attrs)) != self.attrs_canon: return 'attrs changed %r -> %r' % (self.attrs, dict(da_.attrs))
         return None
 
 
@@ -142,8 +153,13 @@ def _make_args(rng, fname, nargs, dtype, layout, dask, H, W):
     if fname in ('proximity', 'allocation', 'direction') and dask:
         geom['xdesc'] = False
     attrs = {'res': (geom['cx'], geom['cy']), 'nested': {'list': [1, 2, {'deep': 'x'}]}, 'Description': 'terrain'}
-    if rng.random() < 0.5:
+    rk = rng.random()
+    if rk < 0.4:
         del attrs['res']              # cell size then comes from the coordinates
+    elif rk < 0.55:
+        attrs['res'] = [geom['cx'], geom['cy']]          # as a list (what a JSON / zarr round trip gives)
+    elif rk < 0.7:
+        attrs['res'] = np.array([geom['cx'], geom['cy']])
     args = []
     for i in range(nargs):
         a = rng.integers(0, 6, (H, W)).astype('float64')
@@ -158,6 +174,8 @@ def _make_args(rng, fname, nargs, dtype, layout, dask, H, W):
             dt = 'int64'
         if fname in ('perlin', 'generate_terrain'):
             a = np.zeros((H, W))
+        if fname == 'viewshed' and np.dtype(dt).kind in 'iu' and np.dtype(dt).itemsize >= 4 and rng.random() < 0.5:
+            a = a + (2 ** 24 + 1)                   # values a float32 cannot hold: 'may widen the dtype without changing a value'
         arr = a.astype(dt)
         if np.dtype(dt).kind == 'f' and rng.random() < 0.3 and fname not in ('perlin', 'generate_terrain', 'viewshed', 'a_star_search', 'polygonize') and not fname.startswith('local.'):
             arr[rng.random((H, W)) < 0.1] = np.nan
@@ -273,11 +291,30 @@ def one_call(rec, fname, args, aux, snaps, dtype, layout, dask, seq_pos=0, extra
             elif not np.array_equal(np.asarray(res.coords[c].values), np.asarray(src.coords[c].values)):
                 problems.append('coordinate %s changed' % c)
         exp_attrs = snaps[0].attrs if ident == 'full' else dict(snaps[0].attrs, unit='%')
-        if dict(res.attrs) != exp_attrs: problems.append('attrs %r != %r' % (dict(res.attrs), exp_attrs))
+        if canon(dict(res.attrs)) != canon(exp_attrs): problems.append('attrs %r != %r' % (dict(res.attrs), exp_attrs))
         if problems:
             rec.violation(fname + '.identity', '%s: output does not keep the input\'s identity: %s' % (fname, '; '.join(problems)), pay); return None
         rec.ok('identity_kept'); rec.ok('scalar_coords_kept')
         # attrs must not be the same nested objects (mutating the output's nested attrs must not leak)
+    # 4. the output's non-index coordinates (scalar, 1-D auxiliary, 2-D) must not be the input's own buffers: write into them
+    if isinstance(res, xr.DataArray) and not dask and ident != 'view':      # trim/crop return views of their input by contract
+        wrote = False
+        for cn, cv in res.coords.items():
+            if cn in res.dims:
+                continue
+            cd = cv.variable._data
+            if isinstance(cd, np.ndarray) and cd.flags.writeable and cd.dtype.kind in 'fiu':
+                try:
+                    cd[...] = cd.dtype.type(77); wrote = True
+                except Exception:
+                    pass
+        if wrote:
+            for i, (a, s_) in enumerate(zip(args[:nargs], snaps[:nargs])):
+                d = s_.diff(a, allow_widen=(fname == 'viewshed'))
+                if d is not None:
+                    rec.violation(fname + '.output_coords_alias_input', 'writing into a non-index coordinate of the output of %s changed argument #%d: %s'
+                                  % (fname, i, d), dict(pay, argument=i)); return None
+            rec.ok('output_coords_not_aliased')
     rec.ok('layout.' + layout); rec.cls('dtype.' + dtype); rec.cls('func.' + fname); rec.add('funcs', fname)
     rec.nontriv(fname, dask, dtype, layout)
     return res
